@@ -6,6 +6,7 @@ package corpus
 import (
 	"bytes"
 	"encoding/binary"
+	"encoding/hex"
 	"go/ast"
 	"go/parser"
 	"go/token"
@@ -104,6 +105,14 @@ func harvestLiterals(root string) [][]byte {
 			if cl, ok := n.(*ast.CompositeLit); ok {
 				if b, ok := literalBytes(cl); ok && len(b) >= 4 && len(b) <= 70000 {
 					out = append(out, b)
+				}
+			}
+			// fixtures written as hex strings (hex.DecodeString("0a0b..."))
+			if bl, ok := n.(*ast.BasicLit); ok && bl.Kind == token.STRING {
+				if str, err := strconv.Unquote(bl.Value); err == nil && len(str) >= 8 && len(str)%2 == 0 && len(str) <= 140000 {
+					if b, err := hex.DecodeString(str); err == nil {
+						out = append(out, b)
+					}
 				}
 			}
 			return true
@@ -256,28 +265,37 @@ func Build(repo string) *Corpus {
 		c.All = append(c.All, b)
 		c.addDecoded(b, layers.LayerTypeEthernet)
 	}
-	// a literal may itself be a bare layer of any registered type whose decoder accepts it without error: offer each short
-	// literal to each type once (cheap, and finds seeds for types that never appear inside an Ethernet frame)
+	// a literal may itself be a bare layer of any registered type whose decoder accepts it without error: offer each
+	// literal to each type that has few seeds and keep the ones that decode furthest / consume most (a 4-byte literal that
+	// some decoder happens to accept must not crowd out the real fixture of that protocol)
 	for _, t := range c.Types {
 		if len(c.Seeds[t]) >= 8 {
 			continue
 		}
+		type cand struct {
+			b     []byte
+			score int
+		}
+		var cands []cand
 		for _, b := range lits {
-			if len(b) > 256 {
+			if len(b) > 2048 {
 				continue
 			}
-			ok := false
+			score := -1
 			vlib.Guard(func() {
 				p := gopacket.NewPacket(b, t, gopacket.DecodeOptions{NoCopy: true})
 				ls := p.Layers()
-				ok = p.ErrorLayer() == nil && len(ls) > 0 && ls[0].LayerType() == t
-			})
-			if ok {
-				c.Seeds[t] = append(c.Seeds[t], b)
-				if len(c.Seeds[t]) >= 8 {
-					break
+				if p.ErrorLayer() == nil && len(ls) > 0 && ls[0].LayerType() == t {
+					score = min(len(ls[0].LayerContents()), 512) + 64*(len(ls)-1)
 				}
+			})
+			if score >= 0 {
+				cands = append(cands, cand{b, score})
 			}
+		}
+		sort.SliceStable(cands, func(a, b int) bool { return cands[a].score > cands[b].score })
+		for i := 0; i < len(cands) && len(c.Seeds[t]) < 8; i++ {
+			c.Seeds[t] = append(c.Seeds[t], cands[i].b)
 		}
 	}
 	withSeeds := 0
@@ -295,7 +313,7 @@ func Build(repo string) *Corpus {
 				ok = len(ls) > 0 && ls[0].LayerType() != gopacket.LayerTypeDecodeFailure
 			})
 			if ok {
-				c.Seeds[t] = append(c.Seeds[t], b)
+				c.Seeds[t] = append([][]byte{b}, c.Seeds[t]...) // in front: consumers take the first seeds of a type
 				c.Stats["hand_made_seeds"]++
 			}
 		}
@@ -804,5 +822,98 @@ func handMade() map[gopacket.LayerType][][]byte {
 		layers.LayerTypeEthernetCTPForwardData: {{2, 0, 0xaa, 0xbb, 0xcc, 0xdd, 0xee, 0xff, 1, 0, 0x12, 0x34, 0xde, 0xad, 0xbe, 0xef}},
 		layers.LayerTypeEthernetCTPReply:       {{1, 0, 0x12, 0x34, 0xde, 0xad, 0xbe, 0xef}},
 		layers.LayerTypePktap:                  {pktap},
+		// solicit: client id (DUID-LLT), option request, elapsed time, IA_NA, server id (DUID-LL)
+		layers.LayerTypeDHCPv6: {
+			{1, 0x57, 0x19, 0x58, 0, 1, 0, 14, 0, 1, 0, 1, 0x1c, 0x38, 0x26, 0x2d, 8, 0, 0x27, 0xfe, 0x8f, 0x95, 0, 6, 0, 4, 0, 23, 0, 24, 0, 8, 0, 2, 0, 0,
+				0, 3, 0, 12, 0x27, 0xfe, 0x8f, 0x95, 0, 0, 0x0e, 0x10, 0, 0, 0x15, 0x18, 0, 2, 0, 10, 0, 3, 0, 1, 8, 0, 0x27, 0xd4, 0x10, 0xbb},
+			// relay-forward carrying a relay message option with a small solicit
+			append(append([]byte{12, 1}, append(make([]byte, 15), 1)...), append(append(make([]byte, 15), 2), 0, 9, 0, 12, 1, 1, 2, 3, 0, 1, 0, 4, 0, 2, 0, 9)...),
+		},
 	}
+}
+
+// Shrinks returns deterministic variants of seed in which a region announced by a length field is cut down to 0..3
+// bytes: every byte and big-endian 16-bit word whose value v, counted from behind the field, stays inside the seed is
+// taken for a length; the v bytes behind it are replaced by v' < v bytes (the original ones, zeros, 0xff.., or a small
+// type value followed by zeros) and the field is set to v'. This produces the tiny-but-consistent TLVs, options and
+// sub-records (an identifier of 2 bytes with an unknown type, an option of length 0) that decoders and - later -
+// String methods must cope with; truncation and random mutation practically never do.
+func (c *Corpus) Shrinks(seed []byte, maxOff int) (out [][]byte) {
+	n := len(seed)
+	if n > 2048 {
+		return nil
+	}
+	seen := map[uint64]bool{}
+	for off := 0; off < n && off < maxOff; off++ {
+		for _, width := range []int{2, 1} {
+			if off+width > n {
+				continue
+			}
+			v := int(seed[off])
+			if width == 2 {
+				v = int(binary.BigEndian.Uint16(seed[off:]))
+			}
+			base := off + width
+			end := base + v
+			if v == 0 || end > n {
+				continue
+			}
+			for nv := 0; nv <= 3 && nv < v; nv++ {
+				for fill := 0; fill < 4; fill++ {
+					if nv == 0 && fill > 0 {
+						break
+					}
+					b := append([]byte{}, seed[:base]...)
+					for i := 0; i < nv; i++ {
+						switch fill {
+						case 0:
+							b = append(b, seed[base+i])
+						case 1:
+							b = append(b, 0)
+						case 2:
+							b = append(b, 0xff)
+						default:
+							if i == nv-1 {
+								b = append(b, 4) // a small type / sub-length value in the last position the region keeps
+							} else {
+								b = append(b, 0)
+							}
+						}
+					}
+					b = append(b, seed[end:]...)
+					if width == 2 {
+						binary.BigEndian.PutUint16(b[off:], uint16(nv))
+					} else {
+						b[off] = byte(nv)
+					}
+					h := vlib.HashBytes(b)
+					if !seen[h] {
+						seen[h] = true
+						out = append(out, b)
+					}
+				}
+			}
+		}
+	}
+	return
+}
+
+// SweepValues are the byte values of the single-byte sweep: numeric extremes plus the bytes that text-like fields treat
+// specially (label and path separators, escapes, DNS compression pointer tag).
+var SweepValues = []byte{0x00, 0x01, '.', '\\', ' ', '/', ':', '@', 0x7f, 0x80, 0xc0, 0xff}
+
+// ByteSweep returns seed with every byte position below maxPos replaced, in turn, by every sweep value that differs from
+// the byte there: the systematic form of the single-byte mutation.
+func (c *Corpus) ByteSweep(seed []byte, maxPos int) (out [][]byte) {
+	for p := 0; p < len(seed) && p < maxPos; p++ {
+		for _, v := range SweepValues {
+			if seed[p] == v {
+				continue
+			}
+			b := append([]byte{}, seed...)
+			b[p] = v
+			out = append(out, b)
+		}
+	}
+	return
 }
